@@ -813,7 +813,7 @@ func (x *Exec) evalCall(env *SpecEnv, e ECall) Val {
 			}
 		}
 		panic(specErr("len of %s", v.Typ))
-	case "int64", "uint64", "int", "uint32", "int32", "uint8", "byte", "uint", "float64":
+	case "int64", "uint64", "int", "uint32", "int32", "uint8", "byte", "uint", "float64", "string":
 		v := x.evalVal(env, e.Args[0])
 		to := x.resolveType(env, e.Fun)
 		if v.Const != nil {
